@@ -54,7 +54,15 @@ func main() {
 		return
 	}
 	if *dump != "" {
-		p, err := load.Load(load.Options{RepoDir: *repo, WorkDir: filepath.Join(*verif, ".work"), StubDir: filepath.Join(*verif, "checker", "stub", "gosensors"), Tags: *tags})
+		var ov map[string][]byte
+		if *patch != "" {
+			var perr error
+			if ov, perr = load.OverlayFromPatch(*repo, *patch); perr != nil {
+				fmt.Println(perr)
+				os.Exit(2)
+			}
+		}
+		p, err := load.Load(load.Options{RepoDir: *repo, WorkDir: filepath.Join(*verif, ".work"), StubDir: filepath.Join(*verif, "checker", "stub", "gosensors"), Tags: *tags, Overlay: ov})
 		load.Cleanup(filepath.Join(*verif, ".work"))
 		if err != nil {
 			fmt.Println(err)
